@@ -72,6 +72,12 @@ func ruleST1(c *Ctx) {
 		if storage[Outermost(fn)] || fn == c.F.Anchors["loadGraph"] || c.loaderKind(Outermost(fn)) != "" {
 			continue
 		}
+		if impl := c.implOf[fn]; impl != nil && storage[impl] {
+			continue // the old name of a storage function kept as a thin wrapper: it hands on the path it was handed
+		}
+		if c.eventsLoaderKind(fn) != "" {
+			continue // loadEvents(dir): chooses the file itself (judged by loads-chosen-log)
+		}
 		for _, call := range callsIn(fn) {
 			cal := calleeOf(call.Common())
 			if cal == nil || len(call.Common().Args) == 0 {
@@ -128,7 +134,12 @@ func ruleST1(c *Ctx) {
 	if lg := c.F.Anchors["loadGraph"]; lg != nil {
 		ok := false
 		for _, call := range callsIn(lg) {
-			if cal := calleeOf(call.Common()); cal == c.F.Anchors["readEvents"] || c.loaderKind(cal) == "path" {
+			if cal := calleeOf(call.Common()); cal != nil && c.eventsLoaderKind(cal) == "dir" && len(call.Common().Args) > 0 {
+				// loadEvents(dir) chooses and reads the file for the directory it is handed
+				if _, isParam := resolve(call.Common().Args[0]).(*ssa.Parameter); isParam {
+					ok = true
+				}
+			} else if cal == c.F.Anchors["readEvents"] || c.loaderKind(cal) == "path" {
 				if d, isCh := c.chooserDir(call.Common().Args[0], env{}); isCh {
 					if _, isParam := resolve(d).(*ssa.Parameter); isParam {
 						ok = true
@@ -466,6 +477,9 @@ func (a *absState) compute0(v ssa.Value, d int) bool {
 func (a *absState) returnsAbs(f *ssa.Function, idx int, d int) bool {
 	any := false
 	for _, r := range returnsOf(f) {
+		if r.Block().Comment == "recover" {
+			continue // the block a deferred recover() would resume in: taken only after a panic
+		}
 		if idx >= len(r.Results) {
 			return false
 		}
